@@ -37,7 +37,9 @@ which helpers of the analysed class are called.
   C04.LIVE   what both sweeps iterate is, after every history of public calls, exactly the set of proposals
              in force: every proposal that was stored and has not been replaced by its own actor or
              expired - a proposal of another actor (also one with the same priority) is not evicted by a
-             store, and after the expiry sweep neither sweep walks a remembered copy of the bucket.
+             store, and after the expiry sweep neither sweep walks a remembered copy of the bucket; the
+             re-evaluation after the expiry sweep returns the target of a sweep over what is left (0 W when
+             nothing is left) - "all proposals expired" is "no proposal", not "keep the last target".
   C04.REPORT _Report.adjust_to_bounds returns what clamp_to_bounds returns for the report's own
              fields; get_status reports the swept bounds with the system exclusion zone; the
              public `bounds` are those inclusion bounds.
@@ -113,6 +115,16 @@ def analysed_reach(run: Run, prog: Program, fn: Any) -> None:
     for h in reach(prog, fn):
         run.analysed(h.qual)
 OWN = 5  # the requesting actor's priority in the abstract runs
+
+
+def mk_prop(it: OrderInterp, tag: str = "p", shapes: list[tuple[int, int, int]] | None = None) -> Obj:
+    """A proposal record for the sweep-level runs: what the actor said (shape chosen by a fork) plus the
+    fields a proposal carries besides - its creation time (an input value of its own: nothing is known
+    about the proposal's age) and the group it is for."""
+    p = mk_proposal(it, tag=tag, shapes=shapes)
+    p.fields.setdefault("creation_time", Atom(f"created_{tag}"))
+    p.fields.setdefault("component_ids", "ids")
+    return p
 
 
 def calc_sweep(prog: Program) -> Sweep:
@@ -339,7 +351,11 @@ def check_live(run: Run, prog: Program) -> bool:  # noqa: C901
           previous one - identity is what Proposal.__eq__ says, (priority, source);
       (2) after the expiry sweep, both sweeps iterate exactly the members the group's bucket has now:
           an expired proposal is equivalent to no proposal, for the re-evaluated target and for the
-          bounds reported to the lower priorities alike.
+          bounds reported to the lower priorities alike;
+      (3) the re-evaluation after the expiry sweep (no new proposal, the caller insists on a value) returns
+          the target of a sweep over the proposals now in force - when none is left, that of the empty
+          sweep, 0 W, which is also what the same actors withdrawing with empty proposals give (C04.NOOP):
+          it neither leaves without a value nor hands back a target remembered from an earlier step.
     Returns False iff it reported (the sweep-level runs assume what this rule establishes)."""
     ct, st = prog.func(CTP), prog.func(STAT)
     owner = ct.cls
@@ -353,6 +369,12 @@ def check_live(run: Run, prog: Program) -> bool:  # noqa: C901
         analysed_reach(run, prog, fn)
     it = HistoryInterp(prog, prog.module(MAT))
     it.loops = [lp for _h, lp in loops.values()]
+    try:  # the local that plays the running target, if the roles of the target sweep can be bound here
+        swc = calc_sweep(prog)
+        if swc.loop is loops["target"][1]:
+            it.target_loop, it.target_name = swc.loop, swc.T
+    except AnalysisError:
+        pass  # the sweep-level rules say what is wrong with the shape of the sweep
     ctx: dict[str, Any] = {}
 
     def mk(tag: str, prio: int) -> Obj:
@@ -391,7 +413,27 @@ def check_live(run: Run, prog: Program) -> bool:  # noqa: C901
         if not isinstance(store, dict):
             raise AnalysisError(f"{owner.qual}: self.{BUCKETS} is not a plain dict after __init__ ({store!r})")
         live = proposals_in(store.get("ids"))
-        _r, v5 = it.run_step("re-evaluation", ct, [so, "ids", None, sysb, True])
+        res5, v5 = it.run_step("re-evaluation", ct, [so, "ids", None, sysb, True])
+        left5 = it.last_return
+        if not v5 and not (not live and isinstance(res5, Atom) and res5.name == "ZERO"):
+            gone = [p for p in (a, b) if not has(live, p)]
+            names = " and ".join(f"'{p.fields['source_id']}'" for p in gone)
+            if res5 is None:
+                got = "returns None - no target is announced"
+            elif isinstance(res5, Atom) and res5.name.startswith("TARGET_of_"):
+                got = (f"returns the target computed when {res5.name[len('TARGET_of_'):].replace('_', ' ')} - a "
+                       "target remembered from an earlier step")
+            else:
+                got = f"returns {res5!r}"
+            entry_gone = "ids" not in store
+            where = f"`{ast.unparse(left5)}` (line {left5.lineno})" if left5 is not None else "the end of the function"
+            bad.append(("vanish", "target", (
+                f"after the expiry sweep has taken the proposal of {names or 'nobody'} out"
+                + (" and removed the group's entry from self." + BUCKETS if entry_gone else "")
+                + f", the re-evaluation (calculate_target_power without a new proposal, the caller insists on a "
+                f"value) leaves through {where} without sweeping "
+                + (f"the {len(live)} proposal(s) now in force" if live else "what is left (the empty set)") + f" and {got}")))
+            ctx["vanish_at"] = left5
         _r, v6 = it.run_step("report after expiry", st, [so, "ids", 0, sysb])
         for what, visits in (("target", v5), ("report", v6)):
             for members in visits:
@@ -413,7 +455,12 @@ def check_live(run: Run, prog: Program) -> bool:  # noqa: C901
         return ("bad", bad) if bad else None
 
     driver = synth("history", [], [])
-    outs = it.explore(driver, make_args, lambda r: (post(r), ctx.get("swept"), ctx.get("dropped")))
+    def post_all(r: Any) -> Any:
+        ctx.pop("vanish_at", None)
+        verdict = post(r)
+        return (verdict, ctx.get("swept"), ctx.get("dropped"), ctx.get("vanish_at"))
+
+    outs = it.explore(driver, make_args, post_all)
     clean = True
     reported: set[tuple[str, str]] = set()
     n_dropped = n_swept = n_both = 0
@@ -425,7 +472,7 @@ def check_live(run: Run, prog: Program) -> bool:  # noqa: C901
                           f"raises {o.value} (decisions: {'; '.join(f'{l}={d}' for l, d in zip(o.labels, o.decisions))})",
                           node=o.raise_node or ct.node, file=ct.file)
             continue
-        verdict, swept, dropped = o.post
+        verdict, swept, dropped = o.post[:3]
         n_dropped += bool(dropped)
         n_swept += bool(swept and all(swept))
         n_both += bool(dropped and swept and all(swept))
@@ -457,7 +504,22 @@ def check_live(run: Run, prog: Program) -> bool:  # noqa: C901
                 "lost": ("The sweep does not read the bucket as it is now: a proposal in force is ignored after the "
                          "expiry sweep (a derived structure is cleared but not rebuilt, or rebuilt from the expired "
                          "members)."),
+                "vanish": ("The target downstream stays the one that was last announced - computed from proposals "
+                           "that no longer exist - while get_status sweeps what is left: the target is not a function "
+                           "of the live proposal set.  'Every proposal of the group has expired' must give what 'no "
+                           "proposal' and 'every actor has withdrawn with an empty proposal (neither power nor "
+                           "bounds)' give: the sweep over what is left, 0 W for the empty set, announced.  (Same "
+                           "defect: the expiry sweep deletes the emptied bucket or forgets the remembered target, so "
+                           "that the public method takes its 'group never seen' exit; an 'empty bucket -> return "
+                           "None' short-cut; handing back the remembered target instead of sweeping.)"),
             }[clause]
+            if clause == "vanish":
+                at = o.post[3] if len(o.post) > 3 else None
+                run.violation("C04.LIVE", ct.qual, ast.unparse(at) if at is not None else ct.name,
+                              f"{text}.  {tail}  (history decisions: "
+                              f"{'; '.join(f'{l}={d}' for l, d in zip(o.labels, o.decisions))})",
+                              node=at or ct.node, file=ct.file)
+                continue
             run.violation("C04.LIVE", holder.qual, f"for {ast.unparse(loop.target)} in {ast.unparse(loop.iter)}",
                           f"{text}.  {tail}  (history decisions: "
                           f"{'; '.join(f'{l}={d}' for l, d in zip(o.labels, o.decisions))})",
@@ -487,7 +549,7 @@ def check_sib(run: Run, prog: Program) -> None:
         L, U = Atom("L"), Atom("U")
         it.assume("<=", L, U)
         excl = mk_excl(it, it.choose(2, "exclusion zone present") == 1)
-        p = mk_proposal(it, shapes=shapes)
+        p = mk_prop(it, shapes=shapes)
         p.fields["priority"] = p_priority
         ctx.update(L=L, U=U, excl=excl, p=p)
 
@@ -510,6 +572,7 @@ def check_sib(run: Run, prog: Program) -> None:
         hi = it.builtin("min", [U, pu], {}, calc.node)
         if it.cmp3(lo, hi, "conflict?") == ">":
             return None  # conflicting proposal: outside C04's quantifier
+        n_calc = len(it.state_test_sites)  # tests on remembered state made by the target sweep's iteration
         L2, U2, stop2 = it.call_node(steps, status_frame())
         if not (isinstance(L1, Atom) and isinstance(U1, Atom) and isinstance(L2, Atom) and isinstance(U2, Atom)):
             return ("shape", f"new bounds ({L1!r}, {U1!r}) / ({L2!r}, {U2!r}) are not input values")
@@ -520,11 +583,48 @@ def check_sib(run: Run, prog: Program) -> None:
             which = "report" if stop2 else "target"
             bad.append(f"only the {which} sweep stops at this proposal: the bounds of the following "
                        "(lower, still restricting) proposals are honoured by one sweep and not by the other")
+        if bad:
+            by_calc = {lbl for lbl, _n in it.state_test_sites[:n_calc]}
+            by_stat = {lbl for lbl, _n in it.state_test_sites[n_calc:]}
+            one_sided = [(lbl, n, "report", "target") for lbl, n in it.state_test_sites[n_calc:] if lbl not in by_calc] \
+                + [(lbl, n, "target", "report") for lbl, n in it.state_test_sites[:n_calc] if lbl not in by_stat]
+            if one_sided:
+                return ("state", (bad, one_sided))
         return ("bad", bad) if bad else None
 
     outs = it.explore(stepc, make_args, post)
-    _report_orderings(run, "C04.SIB", calc, outs, "one iteration of the report sweep and of the target "
-                      "sweep agree on the new running bounds (conflict-free domain)")
+    # disagreements that hang on a test of remembered instance state (a clock, an age, a flag) which only one
+    # of the two sweeps makes: one report per test, at the test
+    by_test: dict[tuple[str, str], list[Any]] = {}
+    rest = []
+    for o in outs:
+        if o.kind == "return" and isinstance(o.post, tuple) and o.post[0] == "state":
+            for lbl, n, who, other in o.post[1][1]:
+                by_test.setdefault((lbl, who), []).append((o, n, other))
+        else:
+            rest.append(o)
+    for (lbl, who), hits in by_test.items():
+        o, n, other = hits[0]
+        holder = (sws if who == "report" else swc).fn
+        ordering = o.state.linear_extension() if o.state is not None else []
+        run.violation(
+            "C04.SIB", holder.qual,
+            (ast.unparse(n) if n is not None else lbl)[:200],
+            f"whether an iteration of the {who} sweep honours a proposal is decided by a test on remembered instance "
+            f"state - `{lbl}`" + (f" (line {n.lineno})" if n is not None and hasattr(n, "lineno") else "")
+            + f", reached from the proposal loop of {holder.qual} - which the {other} sweep does not make: on {len(hits)} abstract path(s) one iteration of the two "
+            f"sweeps over the same running bounds and the same (conflict-free, higher-priority) proposal disagrees, e.g. "
+            f"{'; '.join(o.post[1][0])} under the ordering {' < '.join('='.join(c) for c in ordering)}.  Which "
+            "proposals are in force is the business of the bucket (the store and the expiry sweep) and must be the "
+            "same for both sweeps at every moment: here an actor is told bounds computed without (or with) a proposal "
+            "that still restricts (no longer restricts) the target, so the reported bounds are not the range in which "
+            "its preferred power is adopted unchanged.  (Same defect: an age / clock / 'enabled' flag / 'seen since' "
+            "filter or a cached decision consulted by one sweep only; a proposal skipped by one sweep until the next "
+            "expiry sweep removes it; the same filter applied against two different clocks.)",
+            node=n if n is not None and hasattr(n, "lineno") else holder.node, file=holder.file, ordering=ordering)
+    if rest or not by_test:
+        _report_orderings(run, "C04.SIB", calc, rest, "one iteration of the report sweep and of the target "
+                          "sweep agree on the new running bounds (conflict-free domain)")
     if len(outs) < 100:
         raise AnalysisError(f"C04.SIB: only {len(outs)} abstract paths")
     run.extra_cov.setdefault("abstract_paths", {})["sweep_agreement"] = len(outs)
@@ -616,7 +716,7 @@ def check_adopt(run: Run, prog: Program, tier: str) -> None:
             L, U, T = Atom("L"), Atom("U"), Atom("T")
             it.assume("<=", L, U)
             excl = mk_excl(it, it.choose(2, "exclusion zone present") == 1)
-            p = mk_proposal(it, shapes=shapes_)
+            p = mk_prop(it, shapes=shapes_)
             ctx.update(L=L, U=U, T=T, excl=excl, p=p)
             return sw.frame(**{sw.L: L, sw.U: U, sw.T: T, sw.X: excl, sw.pv: p})
         return make_args
@@ -796,7 +896,7 @@ def check_report(run: Run, prog: Program) -> None:
         sysb = Obj("SystemBounds", inclusion_bounds=Obj("Bounds", lower=sl, upper=su), exclusion_bounds=excl)
         props = []
         if it2.choose(2, "a higher-priority proposal exists") == 1:
-            p = mk_proposal(it2, shapes=shapes)
+            p = mk_prop(it2, shapes=shapes)
             p.fields["priority"] = OWN + 1
             props.append(p)
         so = sws.self_obj()
@@ -860,15 +960,15 @@ def check_store(run: Run, prog: Program) -> None:
         old: Any = None
         other: Any = None
         if sc != 3:
-            p = mk_proposal(it, tag="new")
+            p = mk_prop(it, tag="new")
             p.fields["priority"] = 3
         buckets: dict[str, Any] = {}
         if sc == 1:
-            old = mk_proposal(it, tag="old", shapes=[(1, 1, 1)])
+            old = mk_prop(it, tag="old", shapes=[(1, 1, 1)])
             old.fields.update(priority=3, source_id=p.fields["source_id"])
             buckets["ids"] = it.keyset([old])
         elif sc in (2, 3):
-            other = mk_proposal(it, tag="other", shapes=[(1, 1, 1)])
+            other = mk_prop(it, tag="other", shapes=[(1, 1, 1)])
             other.fields["priority"] = 4
             buckets["ids"] = it.keyset([other])
         stored = Atom("OLD_TARGET") if it.choose(2, "a target is remembered") == 1 else None
@@ -977,7 +1077,7 @@ def check_order(run: Run, prog: Program) -> None:
             sysb, _incl, _excl = mk_system(it, "strict")
             props = []
             for prio in (2, 3, 1):
-                p = mk_proposal(it, tag=f"p{prio}", shapes=[(1, 1, 1)])
+                p = mk_prop(it, tag=f"p{prio}", shapes=[(1, 1, 1)])
                 p.fields["priority"] = prio
                 props.append(p)
             ctx["want"] = sorted(props, key=lambda p: -p.fields["priority"])
@@ -1283,6 +1383,31 @@ def structural_controls(prog: Program) -> list[tuple[str, str, str, str, str]]: 
                 edits.append((n, f"for _ctl_o in list({b}):\n{ind}    if _ctl_o.priority == {a}.priority:\n"
                                  f"{ind}        {b}.discard(_ctl_o)\n{ind}{ast.unparse(n)}"))
     add("one stored proposal per priority", MAT, edits, "C04.LIVE")
+
+    # 18. the expiry sweep "frees" a group whose bucket it has emptied: entry and remembered target gone, so
+    # the re-evaluation takes the 'group never seen' exit and the last announced target stays in force
+    edits = []
+    drop = prog.resolve_method(ct.cls, EXPIRE) if ct.cls is not None else None
+    if drop is not None and drop.module is prog.module(MAT) and len(drop.params) == 2 and drop.node.body:
+        last = drop.node.body[-1]
+        seg = ast.get_source_segment(mat_src, last)
+        dme = drop.params[0]
+        if seg and not isinstance(last, ast.Return):
+            ind = " " * last.col_offset
+            edits.append((last, f"{seg}\n{ind}for _ctl_k in [k for k, b in {dme}.{BUCKETS}.items() if not b]:\n"
+                                f"{ind}    del {dme}.{BUCKETS}[_ctl_k]\n{ind}    {dme}._target_power.pop(_ctl_k, None)"))
+    add("expiry sweep deletes the emptied bucket and forgets the target", MAT, edits, "C04.LIVE")
+
+    # 19. the report sweep skips proposals by a clock kept in the instance; the target sweep honours them
+    edits = []
+    if me_s and ibody and init is not None and sws.loop.body:
+        i_first, l_first = ibody[0], sws.loop.body[0]
+        i_seg, l_seg = ast.get_source_segment(mat_src, i_first), ast.get_source_segment(mat_src, l_first)
+        if i_seg and l_seg:
+            edits.append((i_first, f"{init.params[0]}._ctl_now = 0.0\n{' ' * i_first.col_offset}{i_seg}"))
+            edits.append((l_first, f"if {me_s}._ctl_now - {sws.pv}.creation_time > 60.0:\n"
+                                   f"{' ' * (l_first.col_offset + 4)}continue\n{' ' * l_first.col_offset}{l_seg}"))
+    add("report sweep skips proposals by age, target sweep does not", MAT, edits, "C04.SIB")
 
     # 11. the target sweep runs from the lowest to the highest priority
     edits = []
